@@ -1,6 +1,7 @@
 package main
 
 import (
+	"regexp"
 	"fmt"
 	"go/token"
 	"strings"
@@ -114,6 +115,170 @@ func runC37(c *Ctx) {
 			}
 		}
 	}
+	runC37Extra(c)
 	_ = fmt.Sprint
 	_ = token.NoPos
+}
+
+var bigMutators = map[string]bool{"Add": true, "Sub": true, "Mul": true, "Div": true, "Quo": true, "Rem": true, "Mod": true, "Set": true, "SetInt64": true, "SetUint64": true, "SetBytes": true, "SetString": true, "Neg": true, "Abs": true, "Lsh": true, "Rsh": true, "Exp": true, "And": true, "Or": true, "Xor": true, "Not": true, "SetBit": true, "Sqrt": true}
+
+func runC37Extra(c *Ctx) {
+	// ---- PreValidate (v3): the amount compared is the amount debited; the credit reads the
+	// recipient's balance after the debit (sender and recipient may be one account); every
+	// non-patch transaction passes the minimum-step check
+	if pv := c.mustFn("service/transaction", "transactionV3", "PreValidate"); pv != nil {
+		var debit *ssa.Call
+		for _, s := range c.calls(pv, byMethod("SetBalance")) {
+			_, a := callArgs(s.Common())
+			if x, y, ok := bigBin(a[0], "Sub"); ok {
+				debit = s.Instr.(*ssa.Call)
+				// the comparison that guards the debit
+				var cmp *ssa.Call
+				for _, cs := range c.calls(pv, byCallee("(*math/big.Int).Cmp")) {
+					r, ca := callArgs(cs.Common())
+					if (sameOperand(r, x) && sameOperand(ca[0], y)) || (sameOperand(r, y) && sameOperand(ca[0], x)) {
+						if dominatesInstr(cs.Instr, s.Instr) {
+							cmp = cs.Instr.(*ssa.Call)
+						}
+					}
+				}
+				if cmp == nil {
+					c.violate("C37.cumulative", "v3 debit: comparison on the debited operands", s.Pos(), "no balance.Cmp(amount) on the operands of the debit dominates it")
+					continue
+				}
+				n := 0
+				for _, ms := range c.calls(pv, func(cc *ssa.CallCommon) bool {
+					r, _ := callArgs(cc)
+					return strings.HasPrefix(calleeName(cc), "(*math/big.Int).") && bigMutators[methodName(cc)] && r != nil && (sameOperand(r, y) || sameOperand(r, x))
+				}) {
+					n++
+					after := ms.Instr.Block() == cmp.Block() && dominatesInstr(cmp, ms.Instr)
+					if !after {
+						_, after = pathAvoiding(pv, cmp, func(in ssa.Instruction) bool { return in == ssa.Instruction(ms.Instr) }, nil)
+					}
+					c.check(!after, "C37.cumulative", "v3: the amount is complete before it is compared with the balance", ms.Pos(), methodName(ms.Common())+" precedes the comparison", "the amount (or balance) operand is modified in place by "+methodName(ms.Common())+" after the balance comparison: what is debited is more than what was checked, so a transfer exceeding the balance is selected")
+				}
+				if n == 0 {
+					c.okTrivial("C37.cumulative", "v3: operands of the comparison are not modified afterwards", s.Pos(), "no in-place mutation")
+				}
+			}
+		}
+		for _, s := range c.calls(pv, byMethod("SetBalance")) {
+			_, a := callArgs(s.Common())
+			if x, _, ok := bigBin(a[0], "Add"); ok {
+				rd, isCall := x.(*ssa.Call)
+				okOrd := isCall && debit != nil && dominatesInstr(debit, rd)
+				c.check(okOrd, "C37.cumulative", "v3: the recipient's balance is read after the sender was debited", s.Pos(), "debit; read; credit", "the recipient balance used for the credit is read before the debit: when sender and recipient are the same account the credit overwrites the debit and the cumulative balance grows")
+			}
+		}
+		// minimum steps
+		var cmpMin ssa.Instruction
+		for _, cs := range c.calls(pv, byMethod("Cmp")) {
+			r := render(cs.Instr.Value())
+			if strings.Contains(r, "StepLimit") && strings.Contains(r, "StepsFor(") {
+				cmpMin = cs.Instr
+			}
+		}
+		if cmpMin == nil {
+			c.violate("C37.min-steps", "v3 PreValidate compares the step limit with the minimum steps", pv.Pos(), "no StepLimit.Cmp(minStep)")
+		} else {
+			bad := false
+			tr := ""
+			for _, rs := range returnSites(pv) {
+				if !isNilConst(rs.Results[0]) {
+					continue
+				}
+				if t0, by := pathAvoidingEdges(pv, pv.Blocks[0].Instrs[0], func(in ssa.Instruction) bool { return in == ssa.Instruction(rs.Ret) }, func(in ssa.Instruction) bool { return in == cmpMin }, wSame("patch transaction", `DataType$`, `^"patch"$`)); by {
+					bad = true
+					tr = traceString(t0)
+				}
+			}
+			c.check(!bad, "C37.min-steps", "v3 PreValidate accepts a non-patch transaction only after the minimum-step check", cmpMin.Pos(), "only patches skip it", "a transaction that is not a patch passes PreValidate without the stepLimit ≥ minimum check ("+tr+"): it is selected and then fails in every validator")
+		}
+	}
+	// ---- the window uses the threshold of the pool's own group
+	if f := c.mustFn("service", "", "NewTxTimestampRangeFor"); f != nil {
+		cs := c.calls(f, byCallee("service.TransactionTimestampThreshold"))
+		okG := len(cs) == 1
+		if okG {
+			_, a := callArgs(cs[0].Common())
+			okG = render(a[0]) == "$0" && render(a[1]) == "$1"
+		}
+		c.check(okG, "C37.window", "the window's threshold is that of the requested group and context", f.Pos(), "TransactionTimestampThreshold(c, g)", "the window is built with another group's threshold: patch candidates up to the normal threshold old are selected and rejected by validators")
+		for _, st := range fieldStoresAny([]*ssa.Function{f}, "timestampRange") {
+			fn := fieldName(st.Addr.X.Type(), st.Addr.Field)
+			r := render(st.Store.Val)
+			want := map[string]string{"min": "($0.BlockTimeStamp() - service.TransactionTimestampThreshold($0,$1))", "max": "($0.BlockTimeStamp() + service.TransactionTimestampThreshold($0,$1))"}[fn]
+			c.check(r == want, "C37.window", "window."+fn+" = block timestamp ∓ threshold", st.Store.Pos(), r, fn+" = "+r)
+		}
+	}
+	// ---- lower bound: the three places that decide "too old" agree (boundary excluded)
+	type bnd struct {
+		site string
+		excl bool
+		ok   bool
+		pos  token.Pos
+	}
+	var bs []bnd
+	if f := c.mustFn("service", "", "CheckTxTimestamp"); f != nil {
+		for _, e := range successAlts(f) {
+			_, ex := holds(e.Guards, wGE("ts > min", -1, t(1, `^\$2\.Timestamp\(\)$`), t(-1, `^\$0$`)))
+			_, in := holds(e.Guards, wGE("ts ≥ min", 0, t(1, `^\$2\.Timestamp\(\)$`), t(-1, `^\$0$`)))
+			bs = append(bs, bnd{"CheckTxTimestamp accepts", ex, ex || in, e.pos()})
+			c.requireGuard("C37.window", "CheckTxTimestamp accepts", e.pos(), e.Guards, wGE("ts ≤ max", 0, t(-1, `^\$2\.Timestamp\(\)$`), t(1, `^\$1$`)))
+		}
+	}
+	if f := c.mustFn("service", "TransactionPool", "DropOldTXs"); f != nil {
+		for _, cs := range c.calls(f, byMethod("Remove")) {
+			alts := altGuards(cs.Instr.Block())
+			_, rmEq := holdsAll(alts, wGE("ts ≤ bound", 0, t(-1, `\.Timestamp\(\)$`), t(1, `^\$0$`)))
+			_, rmLt := holdsAll(alts, wGE("ts < bound", -1, t(-1, `\.Timestamp\(\)$`), t(1, `^\$0$`)))
+			bs = append(bs, bnd{"DropOldTXs drops", rmEq && !rmLt, rmEq || rmLt, cs.Pos()})
+		}
+	}
+	if f := c.mustFn("service", "TransactionPool", "CheckTxs"); f != nil {
+		for _, e := range exitAlts(f) {
+			if !isConstBool(e.Results[0], true) {
+				continue
+			}
+			_, ex := holds(e.Guards, wGE("ts > bound", -1, t(1, `\.Timestamp\(\)$`), t(-1, `BlockTimeStamp\(\)`), t(1, `TransactionTimestampThreshold`)))
+			_, in := holds(e.Guards, wGE("ts ≥ bound", 0, t(1, `\.Timestamp\(\)$`), t(-1, `BlockTimeStamp\(\)`), t(1, `TransactionTimestampThreshold`)))
+			bs = append(bs, bnd{"CheckTxs reports a valid transaction", ex, ex || in, e.pos()})
+		}
+	}
+	if len(bs) < 3 {
+		c.undecided("C37.window", "lower-bound sites", token.NoPos, fmt.Sprintf("expected 3 (CheckTxTimestamp, DropOldTXs, CheckTxs), found %d", len(bs)))
+	}
+	for _, b := range bs {
+		if !b.ok {
+			c.undecided("C37.window", b.site+": lower bound", b.pos, "comparison with the lower bound not recognised")
+			continue
+		}
+		c.check(b.excl == bs[0].excl && b.excl, "C37.window", b.site+": a timestamp equal to the lower bound is too old", b.pos, "boundary excluded, as at the sibling sites", "this site treats a timestamp equal to the lower bound differently from the sibling sites (pool expiry, validity probe, window check): a boundary transaction is selected by one and rejected by another")
+	}
+	// ---- pool: one entry per transaction id
+	if f := c.mustFn("service", "transactionList", "Add"); f != nil {
+		n := 0
+		for _, b := range f.Blocks {
+			for _, in := range b.Instrs {
+				mu, ok := in.(*ssa.MapUpdate)
+				if !ok || !strings.HasPrefix(render(mu.Map), "$r.idMap[") {
+					continue
+				}
+				n++
+				look := regexp.QuoteMeta(render(mu.Map) + "[" + render(mu.Key) + "]#1")
+				c.requireAt("C37.pool-unique", "transactionList.Add inserts under an id", mu, wFalse("that id is not in the pool yet", "^"+look+"$"))
+			}
+		}
+		if n != 1 {
+			c.undecided("C37.pool-unique", "transactionList.Add", f.Pos(), fmt.Sprintf("expected one idMap insertion, found %d", n))
+		}
+	}
+	// ---- HasRecent consults the locator for every group
+	if f := c.mustFn("service", "txIDManager", "HasRecent"); f != nil {
+		for _, e := range exitAlts(f) {
+			r0, r1 := render(e.Results[0]), render(e.Results[1])
+			c.check(r0 == "$r.lm.Has($0,$1,$2)#0" && r1 == "$r.lm.Has($0,$1,$2)#1", "C37.has-recent", "HasRecent answers from the locator manager", e.pos(), "lm.Has(g, id, ts)", "HasRecent returns ("+r0+", "+r1+") without consulting the locator for this group: an already included transaction is selected again")
+		}
+	}
 }
